@@ -125,6 +125,15 @@ std::string run(State& s, const Toks& t) {
     else return "bad-op";
     return hx(s.obj[t[1]]->getLogLikelihood());
   }
+  if (o == "clone") {
+    // clone <src> <dst>: deep copy through the virtual clone() of the likelihood class
+    auto q = s.obj.find(t[1]);
+    if (q == s.obj.end()) return "no-object";
+    std::shared_ptr<HmmLikelihood> c(q->second->clone());
+    std::shared_ptr<Parametrizable> cp = std::dynamic_pointer_cast<Parametrizable>(c);
+    s.obj[t[2]] = c; s.par[t[2]] = cp;
+    return hx(c->getLogLikelihood());
+  }
   if (o == "agree") {
     std::string r;
     for (size_t i = 1; i < t.size(); ++i) { auto q = s.obj.find(t[i]); r += (i > 1 ? " " : "") + (q == s.obj.end() ? std::string("none") : hx(q->second->getLogLikelihood())); }
